@@ -181,6 +181,33 @@ func GenC10(verifSeed uint64, run int) *Scenario {
 			}
 		}
 	}
+	// key G: made by gpg, protected, two signing subkeys: the older one is
+	// still a legal choice by key id (unlocking it costs a gpg-strength S2K,
+	// so only a few combinations per scenario)
+	w.Tree = append(w.Tree, TreeEntry{Path: "keys/m-pgp_g.asc", Kind: "file", KeyRef: "pgp_g.asc", Mode: 0o600, MTime: 1500000000})
+	for _, id := range []string{keyID("pgp_g.oldsub"), Pick(g, []string{"", keyID("pgp_g"), keyID("pgp_g.sub")})} {
+		idg := id
+		setG := func(sg map[string]any) {
+			sg["key_file"] = "@SRC@keys/m-pgp_g.asc"
+			delete(sg, "key_id")
+			if idg != "" {
+				sg["key_id"] = idg
+			}
+			delete(sg, "method")
+			delete(sg, "type")
+		}
+		plan.Cases = append(plan.Cases, Case{Format: "deb", Class: "clean", Key: "pgp_g", Env: matrixEnv, Config: variant(func(m map[string]any) {
+			setG(subMap(subMap(m, "deb"), "signature"))
+		})})
+		plan.Cases = append(plan.Cases, Case{Format: "deb", Class: "clean", Key: "pgp_g", Env: matrixEnv, Config: variant(func(m map[string]any) {
+			sg := subMap(subMap(m, "deb"), "signature")
+			setG(sg)
+			sg["method"] = "dpkg-sig"
+		})})
+		plan.Cases = append(plan.Cases, Case{Format: "rpm", Class: "clean", Key: "pgp_g", Env: matrixEnv, Config: variant(func(m map[string]any) {
+			setG(subMap(subMap(m, "rpm"), "signature"))
+		})})
+	}
 	// a key id that is not a key id, and one that names no key of the file: no
 	// key can be selected, signing fails (whatever the method)
 	for _, bad := range [][2]string{{"not-hex", "0xDEADBEEF"}, {"not-hex", "my signing key"}, {"absent-from-key-file", "0123456789abcdef"}} {
